@@ -37,19 +37,20 @@ def _field(p):
 
 
 class State:
-    __slots__ = ("le", "leg", "lz", "cur", "curg", "pz", "stale")
+    __slots__ = ("le", "leg", "lz", "cur", "curg", "pz", "pl", "stale")
 
     def __init__(self):
-        self.le = self.leg = self.cur = self.curg = self.pz = frozenset()
+        self.le = self.leg = self.cur = self.curg = self.pz = self.pl = frozenset()
         self.lz = False
         self.stale = False          # G was rewritten and L not re-established yet
 
     def key(self):
-        return (self.le, self.leg, self.lz, self.cur, self.curg, self.pz, self.stale)
+        return (self.le, self.leg, self.lz, self.cur, self.curg, self.pz, self.pl, self.stale)
 
     def meet(self, o):
         n = State()
         n.le, n.leg, n.cur, n.curg, n.pz = self.le & o.le, self.leg & o.leg, self.cur & o.cur, self.curg & o.curg, self.pz & o.pz
+        n.pl = self.pl & o.pl
         n.lz = self.lz and o.lz
         n.stale = self.stale or o.stale
         return n
@@ -57,6 +58,7 @@ class State:
     def copy(self):
         n = State()
         n.le, n.leg, n.lz, n.cur, n.curg, n.pz, n.stale = self.le, self.leg, self.lz, self.cur, self.curg, self.pz, self.stale
+        n.pl = self.pl
         return n
 
 
@@ -68,6 +70,8 @@ class Slack:
         self.pz_cache = {}
         self._zp = set()
         self._stale_ret = []
+        self._post_leg = set()
+        self._call_leg = {}
 
     def is_L(self, p):
         return _field(p) == self.key
@@ -89,6 +93,24 @@ class Slack:
             return bool(u.is_int and (u.uval == 0 or (self.G is None and u.uval <= self.K)))
         return id(u) in st.leg or id(v) in st.leg or id(u) in st.curg
 
+    @staticmethod
+    def _sig(u):
+        if u.is_inst and u.op in ("sub", "add", "and", "lshr", "udiv", "mul") and len(u.ops) == 2:
+            a, b = _uncast(u.ops[0]), _uncast(u.ops[1])
+            ka = ("c", a.uval) if (a.is_const and a.is_int) else id(a)
+            kb = ("c", b.uval) if (b.is_const and b.is_int) else id(b)
+            return ("sig", u.op, ka, kb)
+        return None
+
+    def _with_sig(self, vals):
+        out = set()
+        for v in vals:
+            out.add(id(v))
+            sg = self._sig(_uncast(v))
+            if sg:
+                out.add(sg)
+        return out
+
     # v <= slack now
     def le(self, v, st):
         u = _uncast(v)
@@ -96,6 +118,9 @@ class Slack:
             return True
         if id(u) in st.le or id(v) in st.le:
             return True
+        sg = self._sig(u)
+        if sg is not None and sg in st.le:
+            return True            # the same expression over the same values, computed a second time
         return st.lz and self.leg(v, st)
 
     def run(self, f, want_post=False, zero_params=()):
@@ -147,6 +172,7 @@ class Slack:
             return stb
         post = True
         stale_ret = []
+        post_leg = None
         for r in f.rets():
             states = []
             if r.ops:
@@ -176,7 +202,10 @@ class Slack:
                     post = False
                 if ste.stale:
                     stale_ret.append(r)
+                ok_params = {p_.idx for p_ in f.params if not (p_.ty or "").endswith("*") and self.leg(p_, ste)}
+                post_leg = ok_params if post_leg is None else (post_leg & ok_params)
         self._stale_ret = stale_ret
+        self._post_leg = post_leg or set()
         return bad_stores, sinks, (post if want_post else None)
 
     def transfer(self, f, i, st, bad_stores, sinks):
@@ -240,7 +269,7 @@ class Slack:
             v0 = i.ops[0]
             okg = Bounder(self.prog, f).bounded(v0, i, Cap(const=K, desc="size of the array member"))
             bad_stores[i] = bad_stores.get(i, False) or not okg
-            st.le, st.leg, st.curg, st.pz = frozenset(), frozenset(), frozenset(), frozenset()
+            st.le, st.leg, st.curg, st.pz, st.pl = frozenset(), frozenset(), frozenset(), frozenset(), frozenset()
             st.stale = True
             return st
         if i.op == "call":
@@ -262,8 +291,13 @@ class Slack:
                 # a function with external linkage answers for its own returns; what a static helper leaves open is the
                 # caller's to finish
                 st.stale = self.helper_stale(i)
+                st.pl = frozenset()
                 if self.post_zero(i):
                     st.pz = frozenset([id(i)])
+                args = self.post_leg_args(i)
+                if args:
+                    self._call_leg[id(i)] = args
+                    st.pl = frozenset([id(i)])
             return st
         return st
 
@@ -309,18 +343,24 @@ class Slack:
                 ua, uc = _uncast(a), _uncast(c)
                 if pred in ("ult", "ule", "eq"):            # a <= c
                     if self.le(c, st) and not ua.is_const:
-                        st.le = st.le | {id(ua), id(a)}
+                        st.le = st.le | frozenset(self._with_sig([ua, a]))
                     if self.leg(c, st) and not ua.is_const:
                         st.leg = st.leg | {id(ua), id(a)}
                 if pred in ("ugt", "uge", "eq"):            # c <= a
                     if self.le(a, st) and not uc.is_const:
-                        st.le = st.le | {id(uc), id(c)}
+                        st.le = st.le | frozenset(self._with_sig([uc, c]))
                     if self.leg(a, st) and not uc.is_const:
                         st.leg = st.leg | {id(uc), id(c)}
                 if pred == "eq":
                     for (x, z) in ((ua, uc), (uc, ua)):
                         if z.is_const and z.is_int and z.uval == 0 and (id(x) in st.cur or id(x) in st.pz):
                             st.lz = True
+                        if z.is_const and z.is_int and z.uval == 0 and id(x) in st.pl:
+                            # the helper answered 0: what it compared with G on every such return is <= G here
+                            add = set()
+                            for a_ in self._call_leg.get(id(x), ()):
+                                add |= {id(a_), id(_uncast(a_))}
+                            st.leg = st.leg | frozenset(add)
         add_le, add_leg = set(), set()
         for ph in s.insts:
             if ph.op != "phi":
@@ -332,11 +372,13 @@ class Slack:
                     if self.leg(val, st):
                         add_leg.add(id(ph))
         dead = {id(i) for i in s.insts}
+        st.le = frozenset({x for x in st.le if not (isinstance(x, tuple) and (x[2] in dead or x[3] in dead))})
         st.le = frozenset((set(st.le) - dead) | add_le)
         st.leg = frozenset((set(st.leg) - dead) | add_leg)
         st.cur = frozenset(set(st.cur) - dead)
         st.curg = frozenset(set(st.curg) - dead)
         st.pz = frozenset(set(st.pz) - dead)
+        st.pl = frozenset(set(st.pl) - dead)
         return st
 
     def helper_stale(self, call):
@@ -356,6 +398,23 @@ class Slack:
                 self.pz_cache[key] = bool(sub._stale_ret)
             res = res or self.pz_cache[key]
         return res
+
+    def post_leg_args(self, call):
+        """arguments of the call that a static helper has compared with G on every return that can answer 0"""
+        ts, ok = self.prog.call_targets(call)
+        if not ok or len(ts) != 1:
+            return []
+        t = next(iter(ts))
+        if isinstance(t, ExternFn) or t.decl or not t.internal:
+            return []
+        key = (t, "pleg")
+        if key not in self.pz_cache:
+            self.pz_cache[key] = set()
+            sub = Slack(self.prog, self.struct, self.A, self.L, self.K, self.G)
+            sub.pz_cache = self.pz_cache
+            sub.run(t.build())
+            self.pz_cache[key] = set(sub._post_leg)
+        return [call.ops[k] for k in sorted(self.pz_cache[key]) if k < len(call.ops) and not call.ops[k].is_const]
 
     def post_zero(self, call):
         """the callee answers 0 only with L == 0 (given the constant-zero arguments of this call)"""
